@@ -5,6 +5,9 @@
 // IN tokens:   H1 <mode> <exchange>*
 //
 //	mode      seq | pipe | byte   (one request at a time / all requests in one write / head written byte by byte)
+//	          part<seed>          request i+1 is PARTLY written together with request i (cut inside its request line,
+//	                              header block or body, chosen from seed); the rest is sent only after response i arrived
+//	          life.<T>.<G>        proxy.SetTimeout(T ms); the client pauses G ms before every request (G << T, total lifetime > T)
 //	exchange  X:<METHOD>:<o|a>:<hex path?query>:<0|1 http/1.0>:<hdrs>:<len>.<seed>.<digest>:<c|k<seed>|n>
 //	           :<status>:<0|1 http/1.0>:<hdrs>:<[z]len>.<seed>.<digest>.<bytes on the wire>:<c|k<seed>|x|n>   (z: gzip of the generated body)
 //	hdrs      hexname=hexvalue,...  or -   (the literal text ORIGIN inside a value stands for the origin's host:port)
@@ -224,6 +227,21 @@ func (e *exch) responseBytes() []byte {
 	return b.Bytes()
 }
 
+// partialCut picks how many bytes of the next request (head h, body b) are
+// written together with the current one: inside the request line, inside the
+// header block (never completing it), or inside the body.
+func partialCut(r *hx.RNG, h, b []byte) int {
+	lineEnd := bytes.Index(h, []byte("\r\n"))
+	switch k := r.Intn(3); {
+	case k == 0 || lineEnd+2 >= len(h)-1:
+		return r.Range(1, lineEnd+1)
+	case k == 1 || len(b) == 0:
+		return r.Range(lineEnd+2, len(h)-1)
+	default:
+		return len(h) + r.Range(0, len(b)-1)
+	}
+}
+
 const sentinel = "/__verif_sentinel"
 
 var idle = 8 * time.Second
@@ -282,6 +300,20 @@ func runCase(in []string) (out []string) {
 		return []string{"ENV:listen"}
 	}
 	proxy := martian.NewProxy()
+	var gap time.Duration
+	if strings.HasPrefix(mode, "life.") {
+		f := strings.Split(mode, ".")
+		if len(f) != 3 {
+			return []string{"BADCASE"}
+		}
+		t, _ := strconv.Atoi(f[1])
+		g, _ := strconv.Atoi(f[2])
+		if t < 100 || g < 0 || g > 5000 {
+			return []string{"BADCASE"}
+		}
+		proxy.SetTimeout(time.Duration(t) * time.Millisecond)
+		gap = time.Duration(g) * time.Millisecond
+	}
 	go proxy.Serve(pl)
 	defer func() {
 		pl.Close()
@@ -341,23 +373,45 @@ func runCase(in []string) (out []string) {
 			}
 		}
 	default:
-		for _, e := range exs {
-			h, b := e.requestBytes(origin.Addr)
-			conn.SetWriteDeadline(time.Now().Add(60 * time.Second))
-			var werr error
-			if mode == "byte" {
-				werr = p1x.WriteSlow(conn, append(append([]byte{}, h...), b...), len(h)+200)
-			} else {
-				_, werr = conn.Write(append(append([]byte{}, h...), b...))
+		var cutRNG *hx.RNG
+		if strings.HasPrefix(mode, "part") {
+			seed, _ := strconv.ParseUint(mode[4:], 10, 64)
+			cutRNG = hx.NewRNG(seed)
+		}
+		var pending []byte // what is still to be sent of the current request
+		for i, e := range exs {
+			if i == 0 || cutRNG == nil {
+				h, b := e.requestBytes(origin.Addr)
+				pending = append(append([]byte{}, h...), b...)
 			}
-			if werr != nil {
-				// the proxy closed the connection before (or while) we wrote:
-				// whatever it sent is still readable.
+			now := pending
+			pending = nil
+			if cutRNG != nil && i+1 < len(exs) {
+				h, b := exs[i+1].requestBytes(origin.Addr)
+				next := append(append([]byte{}, h...), b...)
+				cut := partialCut(cutRNG, h, b)
+				now = append(append([]byte{}, now...), next[:cut]...)
+				pending = next[cut:]
+			}
+			if gap > 0 && i > 0 {
+				time.Sleep(gap)
+			}
+			conn.SetWriteDeadline(time.Now().Add(60 * time.Second))
+			if mode == "byte" {
+				h, _ := e.requestBytes(origin.Addr)
+				p1x.WriteSlow(conn, now, len(h)+200)
+			} else {
+				// a write error means the proxy closed the connection before (or
+				// while) we wrote: whatever it sent is still readable.
+				conn.Write(now)
 			}
 			conn.SetReadDeadline(time.Now().Add(idleNow()))
 			if !record(p1x.ReadResponse(br, e.Method, false)) {
 				break
 			}
+		}
+		if gap > 0 && end == "" {
+			time.Sleep(gap)
 		}
 	}
 	if end == "" {
@@ -411,6 +465,20 @@ func runCase(in []string) (out []string) {
 // separate an overloaded machine from a proxy that really is stuck.
 func runRobust(in []string) []string {
 	out := runCase(in)
+	if len(in) > 1 && strings.HasPrefix(in[1], "life.") {
+		// lifetime scripts carry no close signal: anything but a fully served,
+		// still open connection is either the defect or a stalled machine
+		// (a pause that outlasted the short proxy timeout); run it once more.
+		n := 0
+		for _, t := range out {
+			if strings.HasPrefix(t, "R:") {
+				n++
+			}
+		}
+		if n != len(in)-2 || out[len(out)-1] != "END:open" {
+			return runCase(in)
+		}
+	}
 	for _, t := range out {
 		if strings.Contains(t, "timeout") || strings.HasPrefix(t, "ENV:") {
 			if atomic.AddInt32(&stuck, 1) > 16 {
